@@ -54,6 +54,13 @@ def corpus(seed, n):
     ]
     for cid, text in fam:
         cases.append((cid, None, text))
+    # every candidate name a helper could take, up to eight lengthenings, inside the trait's own attributes: whatever name
+    # is chosen in the end, it is the same in every process
+    for base, suf, attr, tr in (("Educe__DebugField", "_", "Debug(method = \"%s::f\")", "Debug"), ("Educe__RawString", "_", "Debug(method = \"%s::f\")", "Debug(name = false)"),
+                                ("H", "H", "Hash(method = \"%s::f\")", "Hash")):
+        for depth in (7, 8, 9, 12):
+            chain = "::".join(base + suf * i for i in range(depth))
+            cases.append(("chain_%s_%d" % (base, depth), None, "#[derive(Educe)]\n#[educe(%s)]\nstruct S { #[educe(%s)] a: u8, b: u8 }\n" % (tr, attr % chain)))
     # refused requests with several independent problems: which one is reported must not depend on the process either
     six = "Debug, Clone, PartialEq, Hash, Default, PartialOrd"
     refused = [
@@ -236,10 +243,17 @@ def environment(chk, seed, exe, feed, ref):
     for name in sorted(suspects):
         for val in ("", "0", "1", "3", "s", "1.60", "1.76", "1.80.0", "99.99.99", "true", "false", "debug", "release", "x y"):
             plans.append(("suspect %s=%r" % (name, val), {name: val}))
+    # the command line of the expanding process is not an input either (a compiler is started with `--crate-type`,
+    # `--edition`, `-C opt-level`, `--cfg ..`, `--test`)
+    argvs = {"argv-cdylib": ["--crate-type", "cdylib", "--crate-name", "x", "--edition", "2015", "-C", "opt-level=0", "--cfg", "debug_assertions", "--test"],
+             "argv-staticlib": ["--crate-type", "lib", "--crate-type", "staticlib", "-C", "opt-level=3", "--edition=2024", "-C", "panic=abort"],
+             "argv-proc-macro": ["--crate-type", "proc-macro", "--target", "wasm32-unknown-unknown", "-O"]}
+    for name in argvs:
+        plans.append((name, {}))
     chk.extra["environments_tried"] = len(plans)
 
     def one(plan):
-        return plan[0], plan[1], B._run_chunk(exe, list(feed), 1, False, 900, env=base_env(plan[1]))
+        return plan[0], plan[1], B._run_chunk(exe, list(feed), 1, False, 900, env=base_env(plan[1]), pre_args=argvs.get(plan[0], ()))
     with cf.ThreadPoolExecutor(max_workers=min(NCPU, len(plans))) as ex:
         results = list(ex.map(one, plans))
     reported = set()
